@@ -84,6 +84,12 @@ theorem rebuild_flat {n m : Nat} (o : Op n m) : ∀ (θ : Param α o) (rest : Li
   | blockDiag k o ih => intro θ rest; exact takeN_flatN _ _ ih k θ rest
   | blockInterleaved k o ih => intro θ rest; exact takeN_flatN _ _ ih k θ rest
   | sumBatch k o ih => intro θ rest; exact takeN_flatN _ _ ih k θ rest
+  | transpose o ih => intro θ rest; exact ih θ rest
+  | root o ih => intro θ rest; exact ih θ rest
+  | mulRoot a b iha ihb => intro θ rest; simp only [rebuild, flat, List.append_assoc, iha, ihb]
+  | kron a b iha ihb => intro θ rest; simp only [rebuild, flat, List.append_assoc, iha, ihb]
+  | catRows a b iha ihb => intro θ rest; simp only [rebuild, flat, List.append_assoc, iha, ihb]
+  | catCols a b iha ihb => intro θ rest; simp only [rebuild, flat, List.append_assoc, iha, ihb]
 
 theorem rebuild_flat' {n m : Nat} (o : Op n m) (θ : Param α o) : (rebuild o (flat o θ)).1 = θ := by
   have := rebuild_flat o θ []
